@@ -90,8 +90,8 @@ TEMPLATES = {
                     lambda v: ['-w', '4,0,0,0,7,0,0,0.5', '--excitation-pulse=1', '--taper-wire=1,%s,%s,%s' % (v['k'], v['mn'], v['mx'])] + BASE),
     'arc':         ([I('n', -1, 5), R('R', -1, 2), R('a2', -400, 800), R('r', -1, 1)],
                     lambda v: ['-a', '%s,%s,10,%s,%s' % (v['n'], v['R'], v['a2'], v['r']), '--excitation-pulse=1'] + BASE),
-    'helix':       ([I('n', -1, 5), R('L', -2, 2), R('T', -2, 2)],
-                    lambda v: ['-H', '%s,%s,%s,0.002,0.3,0.25' % (v['n'], v['L'], v['T']), '--excitation-pulse=1'] + BASE),
+    'helix':       ([I('n', -1, 5)],
+                    lambda v: ['-H', '%s,%s,%s,0.002,0.3,0.25' % (v['n'], v.get('L', '1.0'), v.get('T', '0.5')), '--excitation-pulse=1'] + BASE),
     'arity-wire':  ([R('r', 0.001, 0.01)], lambda v: ['-w', '3,0,0,0,1.5,0.3,' + v['r'], '--excitation-pulse=1'] + BASE),
     'arity-medium': ([R('e', 1, 80)], lambda v: ['-w', WV, '--excitation-pulse=1', '--medium=%s,0.005' % v['e']] + BASE),
     'unused-load': ([Cx('Z')], lambda v: ['-w', W, '--excitation-pulse=1', '--load=' + v['Z']] + BASE),
@@ -99,7 +99,9 @@ TEMPLATES = {
                                                 '--theta=10,30,2', '--phi=0,90,2']),
 }
 
-NONFINITE = ['nan', 'inf', '-inf']
+NONFINITE = ['nan', 'inf', '-inf', '0', '-1', '1e-300', '1e300']      # special classes of every real field
+# fields that stay concrete in the symbolic run but are exercised through the complete program with special values
+SPECIALS = {'helix': dict(L=['0', '-1', '1e-9', '1e9', 'nan', 'inf'], T=['0', '-0.5', '1e-9', '1e9', 'nan', '-inf'])}
 
 
 def classify(rc, out, err, exc):
@@ -142,9 +144,16 @@ def run_real(mm, argv):
     return rc, out.getvalue(), err.getvalue(), exc
 
 
+CLASS = {'nan': 'nan', 'inf': 'inf', '-inf': '-inf', '0': 'zero', '-1': 'negative', '1e-300': 'tiny', '1e300': 'huge',
+         '1e-9': 'tiny', '1e9': 'huge', '-0.5': 'negative'}
+
+
 def _key(tname, what):
-    w = re.sub(r'[-+]?\d+\.?\d*(?:[eE][-+]?\d+)?', '#', what)
-    return 'C20:%s:%s' % (tname, w[:60])
+    m = re.match(r'(\w+)=(\S+?):(.*)', what)
+    if m and m.group(2) in CLASS:
+        what = '%s=%s:%s' % (m.group(1), CLASS[m.group(2)], m.group(3))
+    w = re.sub(r'(?<![A-Za-z=])[-+]?\d+\.?\d*(?:[eE][-+]?\d+)?', '#', what)
+    return 'C20:%s:%s' % (tname, w[:70])
 
 
 def template(ck, sh, mm, tname):
@@ -177,6 +186,12 @@ def template(ck, sh, mm, tname):
         try:
             with symx.object_arrays(), contextlib.redirect_stdout(out), contextlib.redirect_stderr(err):
                 rc = M.main(list(argv), f_err=err, return_mininec=True)
+                if hasattr(rc, 'as_cmdline'):
+                    # phase 1b: the value-dependent arithmetic right after construction (divisions fork on zero)
+                    for l_ in rc.loads:
+                        for p_ in l_.pulses:
+                            l_.impedance(rc.f, p_)
+                    rc.compute_rhs()
         except SystemExit as e:
             exc = e
         except symx.HarnessError:
@@ -203,6 +218,8 @@ def template(ck, sh, mm, tname):
                 texts[name] = repr(complex(v)).strip('()')
             else:
                 texts[name] = repr(float(v))
+        for k_, v_ in (override or {}).items():
+            texts.setdefault(k_, v_)
         return build(texts)
 
     seen = set()
@@ -260,7 +277,7 @@ def template(ck, sh, mm, tname):
             if kind == 'i':
                 continue
             for nf in NONFINITE:
-                txt = nf if kind == 'r' else (nf + '+0j' if nf != '-inf' else '-inf+0j')
+                txt = nf if kind == 'r' else (nf + '+0j')
                 argv = conc_argv(base[0], base[1], {name: txt})
                 rrc, rout, rerr, rexc = run_real(mm, argv)
                 bad = classify(rrc, rout, rerr, rexc)
@@ -270,6 +287,19 @@ def template(ck, sh, mm, tname):
                     ck.record(on3, 'discharged', sample=sample)
                 else:
                     v = ck.report_violation(_key(tname, name + '=' + nf + ':' + bad), '%s: %s=%s: %s (main %s)' % (tname, name, nf, bad, ' '.join(argv)),
+                                            dict(kind='cli', argv=argv))
+                    ck.record(on3, v, detail=bad, sample=sample)
+        for name, texts_ in SPECIALS.get(tname, {}).items():
+            for txt in texts_:
+                argv = conc_argv(base[0], base[1], {name: txt})
+                rrc, rout, rerr, rexc = run_real(mm, argv)
+                bad = classify(rrc, rout, rerr, rexc)
+                on3 = 'special/%s/%s=%s' % (tname, name, txt)
+                sample = dict(obligation=on3, template=tname, representative=' '.join(argv), real_outcome=bad or 'ok')
+                if bad is None:
+                    ck.record(on3, 'discharged', sample=sample)
+                else:
+                    v = ck.report_violation(_key(tname, name + '=' + txt + ':' + bad), '%s: %s=%s: %s (main %s)' % (tname, name, txt, bad, ' '.join(argv)),
                                             dict(kind='cli', argv=argv))
                     ck.record(on3, v, detail=bad, sample=sample)
     ck.bounds.setdefault('templates', []).append('%s: %s' % (tname, [(f[0], f[1], f[2], f[3]) for f in fields]))
